@@ -69,6 +69,7 @@ def controller_state(w, prog, names, mname, overrides=None):
     ctl = ctl.with_field(fi("frame_clocks"), tm.sym("FC", 64))
     for k, v in (overrides or {}).items():
         ctl = ctl.with_field(fi(k), v)
+    ctl = apply_specs_caches(prog, w, st, ctl, names.CTL, names, mname)
     st.store[CTL] = ctl
     return st
 
@@ -389,3 +390,118 @@ def check_mod_set(chk, prog, cg, fa, api, allowed, key, what, ignore=lambda adt,
     chk.check(not extra, key, "%s changes more than %s: %s" % (
         api, what, sorted("%s.%s (in %s)" % (a.split("::")[-1], f, p.split("::")[-1]) for (a, f), p in extra.items())))
     return True
+
+
+# ---------------------------------------------------------------------------------------------------------------
+# objects set up through their constructor: configuration (fields only the constructor writes: the machine model, values
+# precomputed from it) keeps the value the constructor gives it for the chosen machine, every other field is symbolic
+def configured_object(prog, w, st, adt, targs, ctor_suffix, ctor_args, root_name, genv, crate="rustzx_core", extra_opaque=()):
+    """(object, set of configuration field names).  Falls back to KeyError when the constructor cannot be explored."""
+    from zx.walk import Agg as _Agg, Ref as _Ref, SymObj as _SO, EffectResult as _ER
+    cg, fa = scans(prog)
+    ctor = prog.fn_path(crate, ctor_suffix)
+    old_hook, old_opaque = w.effect_hook, set(w.opaque_paths)
+    w.effect_hook = lambda w_, st_, path, a, d, wh: _ER(None, havoc=False)
+    w.opaque_paths |= set(extra_opaque)
+    try:
+        rs = w.run(prog.fn(ctor), list(ctor_args), genv=genv, state=st)
+    finally:
+        w.effect_hook = old_hook
+        w.opaque_paths = old_opaque
+    rets = [r for r in rs if r.outcome == "return"]
+    if len(rets) != 1 or len(rs) != 1:
+        raise KeyError("anchor: constructor %s does not fold to one path for this configuration: %s" % (ctor_suffix, [(r.outcome, str(r.detail)[:80]) for r in rs][:3]))
+    r = rets[0]
+    obj = r.ret
+    if isinstance(obj, _Ref):
+        obj = r.store.get(obj.obj)
+    if not isinstance(obj, _Agg):
+        raise KeyError("anchor: constructor %s does not return an object" % ctor_suffix)
+    # carry over what the constructor allocated / referenced
+    for k, v in r.store.items():
+        st.store.setdefault(k, v)
+    sym = w.materialise(_SO(root_name, ("adt", adt, tuple(targs))), st)
+    fields = prog.adt(adt)["variants"][0]["fields"]
+    config = set()
+    out = sym
+    for i, f in enumerate(fields):
+        ws = set(strip_closure(p) for p in fa.writers(adt, f["name"]))
+        if ws <= {ctor}:
+            out = out.with_field(i, obj.fields[i])
+            config.add(f["name"])
+    return out, config
+
+
+def apply_specs_caches(prog, w, st, obj, adt, names, mname):
+    """A field of type (&)ZXSpecs inside a device object is a cache of `machine.specs()` taken at construction.  It is
+    given the specs of the chosen machine, after checking what justifies that: the field is written by the constructor
+    only, and there it is the result of ZXMachine::specs applied to the same place the `machine` field is copied from.
+    Anything else raises KeyError (the check then fails closed)."""
+    from zx.walk import Ref as _Ref
+    from zx import scan as _scan
+    fields = prog.adt(adt)["variants"][0]["fields"]
+
+    def is_specs(ty):
+        return isinstance(ty, tuple) and ((ty[0] == "adt" and ty[1] == names.SPECS) or (ty[0] in ("ref", "ptr") and is_specs(ty[2])))
+    caches = [(i, f) for i, f in enumerate(fields) if is_specs(f["ty"])]
+    if not caches:
+        return obj
+    cg, fa = scans(prog)
+    SPECS_FN = prog.fn_path("rustzx_core", "ZXMachine::specs")
+    for i, f in caches:
+        ws = set(strip_closure(p) for p in fa.writers(adt, f["name"]))
+        # the functions that build a value of this type (struct literal)
+        ctors = sorted(set(strip_closure(p) for p, g in prog.fns.items() if g.local and any(
+            s_[0] == "=" and s_[2][0] == "agg" and s_[2][1].get("path") == adt for b in g.body["blocks"] for s_ in b["s"])))
+        if len(ctors) != 1 or not ws <= set(ctors):
+            raise KeyError("anchor: the cached machine constants %s.%s are written by %s / the type is built in %s, not by one constructor alone" % (
+                adt.split("::")[-1], f["name"], sorted(ws), ctors))
+        fn = prog.fn(ctors[0])
+        ok = False
+        mi = [k for k, g in enumerate(fields) if g["name"] == "machine"]
+        for b in fn.body["blocks"]:
+            for s_ in b["s"]:
+                if s_[0] == "=" and s_[2][0] == "agg" and s_[2][1].get("path") == adt:
+                    op = s_[2][2][i]
+                    if op[0] not in ("cp", "mv") or op[1]["p"]:
+                        continue
+                    # the defining call of that local
+                    for b2 in fn.body["blocks"]:
+                        t = b2["t"]
+                        if t["k"] == "call" and t.get("dest") and t["dest"]["l"] == op[1]["l"] and not t["dest"]["p"] and SPECS_FN in _scan.call_targets(prog, fn, t):
+                            src = _source_place(fn.body, t["args"][0])
+                            msrc = _source_place(fn.body, s_[2][2][mi[0]]) if mi else None
+                            ok = src is not None and (msrc is None or src == msrc)
+        if not ok:
+            raise KeyError("anchor: the constructor does not fill %s.%s with the specs of the machine it stores" % (adt.split("::")[-1], f["name"]))
+        rs = w.run(prog.fn(SPECS_FN), [machine_value(prog, names, mname)], genv={}, state=st)
+        if len(rs) != 1 or rs[0].outcome != "return":
+            raise KeyError("anchor: ZXMachine::specs does not fold to a constant for %s" % mname)
+        r = rs[0]
+        for k, v in r.store.items():
+            st.store.setdefault(k, v)
+        val = r.ret
+        if f["ty"][0] == "adt" and isinstance(val, _Ref):
+            val = r.store[val.obj]
+        obj = obj.with_field(i, val)
+    return obj
+
+
+def _source_place(body, op):
+    """the place an operand is a (chain of) plain copy of, as a hashable key"""
+    for _ in range(6):
+        if op[0] not in ("cp", "mv"):
+            return None
+        pl = op[1]
+        if pl["p"]:
+            return (pl["l"], json_key(pl["p"]))
+        defs = [s_[2] for b in body["blocks"] for s_ in b["s"] if s_[0] == "=" and s_[1]["l"] == pl["l"] and not s_[1]["p"]]
+        if len(defs) != 1 or defs[0][0] != "use":
+            return (pl["l"], ())
+        op = defs[0][1]
+    return None
+
+
+def json_key(x):
+    import json as _json
+    return _json.dumps(x, sort_keys=True)
